@@ -49,10 +49,13 @@ const (
 	siteVFC = "pkg/bootflow/bootengine/validator/validator_final_coverage_is_complete.go:Validate"
 	siteVNI = "pkg/bootflow/bootengine/validator/validator_no_issues.go:Validate"
 
-	findD6      = "C10-D6-foreign-artifact"
-	findEmpty   = "C10-empty-code-range"
-	findMixed   = "C10-final-mixed-address-space"
-	findBacking = "C10-shared-backing-append"
+	findD6 = "C10-D6-foreign-artifact" // the one listed finding
+
+	// regression probes of repaired findings: not listed any more, a reproduction
+	// is an ordinary failure with the probe's input
+	findEmpty   = siteVAP + " (actor without a code byte; repaired finding C10-empty-code-range)"
+	findMixed   = siteVFC + " (measurement given as image offsets; repaired finding C10-final-mixed-address-space)"
+	findBacking = "pkg/bootflow/types/data.go:References.SortAndMerge (append into the caller's spare capacity; repaired finding C10-shared-backing-append)"
 
 	fourGiB = uint64(0x100000000)
 )
@@ -1092,16 +1095,14 @@ type stageObs struct {
 	iss      []oissue
 	post     [][]hrange // the backing arrays afterwards
 	changed  bool       // ... differ from before
-	foreign  string     // a write that is neither an in-place sort of a slice nor within reach of a slice with fewer than two ranges and spare capacity
+	foreign  string     // a write that is not an in-place sort of a slice
 	snap     []string   // what the log says afterwards
 }
 
 // unexplainedWrite looks at what one validator run did to the memory behind the
-// log.  Two kinds of writes are accounted for: permuting the ranges inside a slice
-// of the log (in-place sort) and writes within reach (up to cap) of a slice with
-// fewer than two ranges and spare capacity (the listed finding
-// C10-shared-backing-append: the code does not re-allocate such a slice before
-// appending to it).  Returns a description of the first other write, or "".
+// log.  One kind of write is accounted for: permuting the ranges inside a slice of
+// the log (in-place sort).  Returns a description of the first other write (e.g.
+// an append into the spare capacity of a slice of the log), or "".
 func unexplainedWrite(pre, post [][]hrange, slots []slot) string {
 	multiset := func(h [][]hrange, s slot) string {
 		v := append([]hrange(nil), h[s.arr][s.off:s.off+s.n]...)
@@ -1122,9 +1123,6 @@ func unexplainedWrite(pre, post [][]hrange, slots []slot) string {
 			for _, s := range slots {
 				if s.arr != a || p < s.off {
 					continue
-				}
-				if s.n < 2 && s.c > s.n && p < s.off+s.c {
-					ok = true // within reach of a small slice with spare capacity
 				}
 				if p < s.off+s.n && multiset(pre, s) == multiset(post, s) {
 					ok = true // the slice was permuted
@@ -1235,7 +1233,7 @@ func runCase(c *gal.Ctx, f *hflow) {
 		c.Count("log-has-small-slice-with-spare-capacity")
 	}
 
-	f.oracle(c, idx, res, stages, snap0, smallSpare, vniIss)
+	f.oracle(c, idx, res, stages, snap0, vniIss)
 }
 
 func main() {
@@ -1255,6 +1253,6 @@ func main() {
 	c.Finish("every flow is executed by the real interpreter, the log is projected with its memory layout (backing arrays of all range slices, " +
 		"spare capacity, shared arrays), the real validators run on that one log one after another (validator.All(), then the range validators again); " +
 		"the slice-level model (Model/ValidatorsHeap.v) must reproduce every issue list (step, kind, non-measured and measured ranges) and the backing arrays after every run, " +
-		"the value-level model (Model/Validators.v) every issue list whenever no slice of fewer than two ranges has spare capacity; " +
+		"the value-level model (Model/Validators.v) every issue list as well, for every memory layout; " +
 		"oracle: bitmaps over artifact offsets computed from the flow description, judged on every pass, plus: the log says the same after validation")
 }
